@@ -97,6 +97,11 @@ def _build():
               "(Python, C standard, C -O) against its own reference layout, and the lemma that those layouts are bit-identical"))
     add(Check("C16", ["gen_c", "gen_py"], explanation="JSON: the generated C Json function + the real runtime emit, as a sequence of "
               "BpJsonFormatString calls, exactly the prescribed JSON value; the generated Python to_dict/to_json give the same value"))
+    # NOT in MANIFEST.json: the generic loop-invariant proofs of BpCopyBufferBits (unbounded n).  Every obligation discharges on an
+    # idle machine, but verdicts of a few quantified bit-vector queries flip to `unknown` under load, so they are not registered
+    # (DESIGN.md section 12).  Run by hand:  bin/vcheck XC   (and  bin/vcheck XC-full  for the little-endian content clause).
+    add(Check("XC", ["c_bitproto"], explanation="experimental, unregistered: BpCopyBufferBits loop-invariant proofs"))
+    add(Check("XC-full", ["c_bitproto"], explanation="experimental, unregistered: BpCopyBufferBits little-endian body, full contract"))
     comp = ["py_ast", "py_parser", "py_main_lint"]
     for pr, ex in [
         ("C08", "two-sided 'raises X <=> constraint violated' contracts on every validator of _ast.py / options.py for ALL integers "
